@@ -162,16 +162,20 @@ theorem runTxs_append (env : Env) :
 /-- **C06c**: the block with the failing transaction commits the same state and returns the same validator
     updates as the block without it (all transactions before it, and all after it by other signers, are
     untouched) -/
-theorem c06_block (env : Env) (s : App) (dt : Int) (votes : List Vote) (pre post : List Tx) (tx : Tx)
+theorem c06_block (env : Env) (s : App) (dt : Int) (votes : List Vote) (evid : List Evid) (pre post : List Tx) (tx : Tx)
     (hsig : ∀ t ∈ post, t.signer ≠ tx.signer)
     (hfail : ∀ s1 incs1, (runTx env s1 incs1 tx).1 ≠ .ok) :
-    (block env s ⟨dt, votes, pre ++ tx :: post⟩).map (fun r => (r.1.updates, r.2)) =
-    (block env s ⟨dt, votes, pre ++ post⟩).map (fun r => (r.1.updates, r.2)) := by
+    (block env s ⟨dt, votes, pre ++ tx :: post, evid⟩).map (fun r => (r.1.updates, r.2)) =
+    (block env s ⟨dt, votes, pre ++ post, evid⟩).map (fun r => (r.1.updates, r.2)) := by
   unfold block beforeEnd
   simp only
   cases slashingBegin votes { s with height := s.height + 1, time := s.time + dt } with
   | error h => rfl
-  | ok s1 =>
+  | ok s0 =>
+    simp only
+    cases evidenceBegin evid s0 with
+    | error h => rfl
+    | ok s1 =>
     simp only
     cases poaBegin env.lim s1 with
     | error h => rfl
